@@ -192,15 +192,20 @@ func c18slow(seed uint64) (obs []uint64, mons [][2]string) {
 			}
 		}
 	}()
-	n := 6 + r.intn(6)
+	attempts := 6 + r.intn(6)
+	n := 0 // transitions that really happened
 	var lch []bool
-	for i := 0; i < n; i++ {
+	for i := 0; i < attempts; i++ {
 		if s.r.State() != raft.Leader {
 			s.r.VerifFireHeartbeatTimeout()
-			c17wait(func() bool { return s.r.State() == raft.Leader }, 2*time.Second)
+			if c17wait(func() bool { return s.r.State() == raft.Leader }, 2*time.Second) {
+				n++
+			}
 		} else {
 			s.depose()
-			c17wait(func() bool { return s.r.State() == raft.Follower }, 2*time.Second)
+			if c17wait(func() bool { return s.r.State() == raft.Follower }, 2*time.Second) {
+				n++
+			}
 		}
 		if r.chance(1, 3) {
 			select {
@@ -210,10 +215,22 @@ func c18slow(seed uint64) (obs []uint64, mons [][2]string) {
 			}
 		}
 	}
-	// at rest: the consumer has caught up
-	want := n
-	c17wait(func() bool { mu.Lock(); defer mu.Unlock(); return len(got) >= want }, 3*time.Second)
-	time.Sleep(2 * time.Millisecond)
+	// at rest: nothing moves any more (a transition that was slow to start is waited for as well)
+	{
+		prev, same := [2]int{-1, -1}, 0
+		for i := 0; i < 3000 && same < 30; i++ {
+			time.Sleep(time.Millisecond)
+			mu.Lock()
+			cur := [2]int{len(got), int(s.r.State())}
+			mu.Unlock()
+			if cur == prev {
+				same++
+			} else {
+				same = 0
+			}
+			prev = cur
+		}
+	}
 	isLeader := s.r.State() == raft.Leader
 	mu.Lock()
 	seq := append([]bool(nil), got...)
@@ -240,8 +257,8 @@ func c18slow(seed uint64) (obs []uint64, mons [][2]string) {
 			break
 		}
 	}
-	if len(seq) != n {
-		mon("notifych-message-count", "%d transitions but %d notifications delivered at rest: %v", n, len(seq), seq)
+	if len(seq) < n {
+		mon("notifych-message-count", "%d transitions seen but only %d notifications delivered at rest: %v", n, len(seq), seq)
 	} else if len(seq) > 0 && seq[len(seq)-1] != isLeader {
 		mon("notifych-last-value-not-role", "at rest the last value delivered is %v but State()==Leader is %v", seq[len(seq)-1], isLeader)
 	}
